@@ -385,6 +385,7 @@ func (v *Verifier) VerifyFunc(c *Contract) (res *FuncResult) {
 	nextSyms = map[*Term]bool{}
 	nextGE = map[*Term]idBound{}
 	privateArrs = map[*Term]bool{}
+	nonNeg = map[*Term]bool{}
 	st := &State{cells: map[*ssa.Alloc]Value{}, heap: map[string]*Term{}, next: Var("next0", BV64)}
 	nextSyms[st.next] = true
 	ex.assume(True, ULt(C64(4096), st.next))
